@@ -46,6 +46,8 @@ pub struct Log {
     /// upper bound on the bytes this transport may serve (0 = none); exceeding it raises `over_limit`
     pub limit: usize,
     pub over_limit: bool,
+    /// a write was refused (the peer had reset the connection, see `fail_writes_after`)
+    pub write_refused: bool,
 }
 
 impl Log {
@@ -230,6 +232,7 @@ impl Write for Scripted {
         let mut log = self.log.lock().unwrap();
         let served = log.served;
         if self.fail_writes_after > 0 && log.written.len() >= self.fail_writes_after {
+            log.write_refused = true;
             return Err(io::Error::new(io::ErrorKind::ConnectionReset, "harness: the peer reset the connection while the request was being written"));
         }
         let n = if self.max_write > 0 { buf.len().min(self.max_write) } else { buf.len() };
